@@ -304,7 +304,7 @@ class _RAExec(SymExec):
         return super().iter_element(st, node, itv, n, func, depth)
 
 
-def _random_access(repo, L, fi):
+def _random_access(repo, L, fi, rule="R6"):
     sb = fi.methods.get("sequence_bytes")
     if sb is None:
         raise AnalysisError("anchor FastaIndex.sequence_bytes vanished")
@@ -354,7 +354,7 @@ def _random_access(repo, L, fi):
                 ok_seek = ok_seek and got == want_seek
             except NotNumeric:
                 ok_seek, got = False, None
-            L.check(ok_seek, "R6", f"{sb.short}[{case}]:seek", "seek(file_offset + start0 % rpl + max_line_length · (start0 // rpl))", f"first seek goes to {got}, the faidx offset of the first residue is {want_seek}", sb.loc(first[1]) if first else sb.loc())
+            L.check(ok_seek, rule, f"{sb.short}[{case}]:seek", "seek(file_offset + start0 % rpl + max_line_length · (start0 // rpl))", f"first seek goes to {got}, the faidx offset of the first residue is {want_seek}", sb.loc(first[1]) if first else sb.loc())
             # ---- total bytes read
             total = Lin.const(0)
             count = None
@@ -385,7 +385,7 @@ def _random_access(repo, L, fi):
             if B("eq", LO) in extra_pc:
                 d2 = _replace_atom(d2, LO, Lin.const(0))
             okt = okr and d2.is_zero()
-            L.check(okt, "R6", f"{sb.short}[{case}]:bytes", "Σ read sizes == end − start0", f"in the case '{case}' the reads sum to {total}, which differs from the interval length end − start + 1 by {d2} (after the division identities)", sb.loc(), witness={"case": case, "reads": [repr(e[2][1][0]) if e[2][1] else None for e in reads], "whole_lines": repr(count)})
+            L.check(okt, rule, f"{sb.short}[{case}]:bytes", "Σ read sizes == end − start0", f"in the case '{case}' the reads sum to {total}, which differs from the interval length end − start + 1 by {d2} (after the division identities)", sb.loc(), witness={"case": case, "reads": [repr(e[2][1][0]) if e[2][1] else None for e in reads], "whole_lines": repr(count)})
             # ---- between line reads the terminator is skipped: relative seeks of (mll - rpl)
             rel = seeks[1:]
             okrel = True
@@ -396,13 +396,13 @@ def _random_access(repo, L, fi):
                 except NotNumeric:
                     okrel = False
             if case != "single-line":
-                L.check(okrel and len(rel) >= 2, "R6", f"{sb.short}[{case}]:terminators", "line terminators skipped by relative seeks of (max_line_length − residues_per_line)", f"relative seeks {[repr(e[2][1]) for e in rel]} do not skip exactly one line terminator after each line read", sb.loc())
+                L.check(okrel and len(rel) >= 2, rule, f"{sb.short}[{case}]:terminators", "line terminators skipped by relative seeks of (max_line_length − residues_per_line)", f"relative seeks {[repr(e[2][1]) for e in rel]} do not skip exactly one line terminator after each line read", sb.loc())
                 # order: read, seek, (read, seek)*, [read]
                 seq = [e[0] for e in r.effects if e[0] in ("read", "seek")][1:]
                 pat_ok = seq[:2] == ["read", "seek"] and all(seq[i] != seq[i + 1] for i in range(len(seq) - 1))
-                L.check(pat_ok, "R6", f"{sb.short}[{case}]:order", "reads and terminator skips alternate", f"access pattern {seq} does not alternate line reads and terminator skips", sb.loc())
+                L.check(pat_ok, rule, f"{sb.short}[{case}]:order", "reads and terminator skips alternate", f"access pattern {seq} does not alternate line reads and terminator skips", sb.loc())
         results.append(base_case)
-    L.floor("R6", "random-access cases", n_cases, 3)
+    L.floor(rule, "random-access cases", n_cases, 3)
     L.trust("division axioms: x == d·⌊x/d⌋ + x mod d ; ⌊(e−1)/d⌋ == ⌊e/d⌋ − [e mod d == 0]")
     L.assume("each read stays inside one FASTA line (uniform line width within a record)")
 
